@@ -124,6 +124,39 @@ def gen_call(r, name):
     return kinds, src
 
 
+def split_args(text):
+    """top-level argument texts of a call body (balanced parentheses, strings)"""
+    out, depth, cur, instr, i = [], 0, "", False, 0
+    while i < len(text):
+        ch = text[i]
+        if instr:
+            cur += ch
+            if ch == "\\" and i + 1 < len(text):
+                cur += text[i + 1]
+                i += 1
+            elif ch == '"':
+                instr = False
+        elif ch == '"':
+            instr = True
+            cur += ch
+        elif ch == "(":
+            depth += 1
+            cur += ch
+        elif ch == ")":
+            depth -= 1
+            cur += ch
+        elif ch == " " and depth == 0:
+            if cur:
+                out.append(cur)
+            cur = ""
+        else:
+            cur += ch
+        i += 1
+    if cur:
+        out.append(cur)
+    return out if depth == 0 and not instr else None
+
+
 def probe_ok(o, ref):
     return o is not None and o.get("ok") and o.get("vals") == ref
 
@@ -197,6 +230,65 @@ def part_builtins(rep, per_fn):
             outcomes["err"] += 1
             if len(rep.coverage["samples"]) < 6 and outcomes["err"] < 4:
                 rep.sample({"builtin_call": src, "error_kind": o.get("kind")})
+    # adaptive second phase: a call that SUCCEEDED with a small integer in a non-first position shows that the builtin
+    # takes an integer parameter there (radix, index, count, width ...): that position is swept over 0..40 with the
+    # other arguments fixed, which walks over the parameter's validity boundary wherever it lies
+    sweep_src, sweep_meta = [], []
+    done = set()
+    # (so that finding such a parameter does not depend on the random tuples, every builtin is also probed on a small
+    #  grid: representative first arguments x the integers 2 and 10 in second / third position)
+    grid_src, grid_meta = [], []
+    firsts = [("int-small", "255"), ("int-small", "19"), ("str", '"hello world"'), ("list", "'(1 2 3)"), ("vec", "(vector 1 2 3)"), ("bytes", "(bytes 0 127 255)")]
+    for name, kind in fns:
+        if SIZELIKE.search(name):
+            continue
+        for fk, fa in firsts:
+            for k in ("2", "10"):
+                grid_src.append("(%s %s %s)" % (name, fa, k))
+                grid_meta.append((name, [fk, "int-small"]))
+            grid_src.append("(%s %s 1 2)" % (name, fa))
+            grid_meta.append((name, [fk, "int-small", "int-small"]))
+    grid_outs = core.run_units(grid_src, per=150, tag="c07g", prelude=BUILTIN_SETUP, timeout_ms=25000, case_opts={"mem_mb": 4096})
+    for (name, kinds), src, o in zip(grid_meta, grid_src, grid_outs):
+        if o is None:
+            continue
+        rep.count()
+        if "died" in o:
+            if o["died"] != "timeout":
+                sig = crash_sig(o, src)
+                if sig is not None:
+                    pending_signals.append((name, src, o, sig))
+        elif o.get("panic"):
+            pending_signals.append((name, src, o, "panic at %s" % core.panic_sig(o["panic"])))
+    for (name, kinds), src, o in list(zip(grid_meta, grid_src, grid_outs)) + list(zip(meta, units, outs)):
+        if name in done or o is None or not o.get("ok") or not src.startswith("(%s " % name) or SIZELIKE.search(name):
+            continue
+        positions = [j for j, k in enumerate(kinds) if k == "int-small" and j >= 1]
+        if not positions:
+            continue
+        parts = split_args(src[len(name) + 2:-1])
+        if parts is None or len(parts) != len(kinds):
+            continue
+        done.add(name)
+        j = positions[-1]
+        for v in range(0, 41):
+            sweep_src.append("(%s %s)" % (name, " ".join(str(v) if i == j else a for i, a in enumerate(parts))))
+            sweep_meta.append((name, kinds))
+    rep.note("builtins_with_an_integer_parameter_swept", len(done))
+    if sweep_src:
+        outs_s = core.run_units(sweep_src, per=150, tag="c07s", prelude=BUILTIN_SETUP, timeout_ms=25000, case_opts={"mem_mb": 4096})
+        for (name, kinds), src, o in zip(sweep_meta, sweep_src, outs_s):
+            if o is None:
+                continue
+            rep.count()
+            if "died" in o:
+                if o["died"] == "timeout":
+                    continue
+                sig = crash_sig(o, src)
+                if sig is not None:
+                    pending_signals.append((name, src, o, sig))
+            elif o.get("panic"):
+                pending_signals.append((name, src, o, "panic at %s" % core.panic_sig(o["panic"])))
     # every death / panic of a builtin call is re-run without native code generation: natively compiled
     # library code that runs on after a failed type check corrupts memory, and the symptom (signal,
     # abort, panic in an unrelated crate) is arbitrary -- the root cause is identified by this test
